@@ -80,10 +80,11 @@ class C10Rotating(Scenario):
             self.since = {kk: n for kk, n in self.since.items() if n <= window0 + 5}
         elif op == "add":
             key = seams.key_of(step["k"])
-            was = o.check(key)
+            was = (key in o) if step.get("nb") else o.check(key)  # the two documented spellings of membership
             eff = step["force"] or not was
             q0 = o.current_queue_size
-            structs.api_add(o, key, step.get("alt"), force=bool(step["force"]), hasher=self.sub.hasher)
+            structs.api_add(o, key, step.get("alt"), force=bool(step["force"]), hasher=self.sub.hasher,
+                            buf=self.__dict__.setdefault("buf", []))
             if eff:
                 for k in self.since:
                     self.since[k] += 1
